@@ -219,6 +219,10 @@ def stage_groups_single(sc, side):
             t += ["--action", o["action"]]
         if o.get("revcomp"):
             t.append("--revcomp")
+            if o.get("rename"):
+                # with --rename the ' rc' suffix is not appended ({rc} exists instead): the single-stage run must
+                # not append it either; '{header}' is the documented no-op template
+                t += ["--rename", "{header}"]
         st_.append(("adapters", t))
     if o.get("poly_a"):
         st_.append(("poly_a_r2" if side == 1 else "poly_a", ["--poly-a"]))
